@@ -77,7 +77,7 @@ FAMILIES = {
     ],
     "thorough": [
         dict(part="F", keys=["a", "b"], depth=3, lo=0, hi=1, vals="mid", must=None, m=16),
-        dict(part="F", keys=["a", "b"], depth=3, lo=2, hi=2, vals="fsmall", must=None, m=96),
+        dict(part="F", keys=["a", "b"], depth=3, lo=2, hi=2, vals="tiny", must=None, m=96),
         dict(part="F", keys=["a", "b", "a/b"], depth=2, lo=0, hi=2, vals="tiny", must="a/b", m=24),
     ] + [dict(part="F", keys=["a", k], depth=3, lo=0, hi=1, vals="mid", must=k, m=8) for k in SPECIAL]
       + [dict(part="F", keys=["a", k], depth=2, lo=2, hi=2, vals="fsmall", must=k, m=16) for k in SPECIAL] + [
@@ -413,10 +413,11 @@ def patch_case(old, new):
         lib_ok = R.same_value(jsonpatch.JsonPatch(R.clone(lib)).apply(R.clone(old)), new)
     except Exception:  # noqa
         lib_ok = False
-    sig = {"kind": "make_patch-roundtrip",
-           "shape": "array" if _touches_array(patch, old, new) else "object",
-           "outcome": "wrong-document" if exc is None else "exception:" + type(exc).__name__,
-           "order_differs_from_library": lib != patch, "library_order_ok": lib_ok}
+    # one signature per root cause: the library's operation list works and annet's re-ordered list does not, or the
+    # library's own list is already wrong
+    sig = {"kind": "make_patch-roundtrip", "shape": "array" if _touches_array(patch, old, new) else "object",
+           "cause": ("operations re-ordered by make_patch's sort" if lib_ok and lib != patch else
+                     "jsonpatch's own operation list does not reproduce the target" if not lib_ok else "unknown")}
     viol.append((sig, "old=%s new=%s patch=%s applied=%s; jsonpatch's own order %s gives %s" % (
         json.dumps(old), json.dumps(new), json.dumps(patch),
         json.dumps(got) if exc is None else "%s: %s" % (type(exc).__name__, exc), json.dumps(lib),
